@@ -71,6 +71,7 @@ type echoResult struct {
 	hits          map[string]int64
 	signature     uint64
 	closeReturned bool
+	connsClosedBeforeClose int
 	streamObs     *streamObs
 	calls         int64
 	cluster       *fakenode.Cluster
@@ -334,6 +335,9 @@ func classifyErr(err error) string {
 	}
 	s := err.Error()
 	switch {
+	case strings.Contains(s, "heartbeat failed"):
+		// the driver closed the connection itself after six failed heartbeats; in-flight calls get this text
+		return "conn-closed"
 	case strings.Contains(s, "EOF"), strings.Contains(s, "closed pipe"), strings.Contains(s, "unable to read frame body"), strings.Contains(s, "injected write failure"), strings.Contains(s, "i/o timeout"), strings.Contains(s, "deadline exceeded"):
 		return "conn-closed"
 	case strings.Contains(s, "can not marshal"), strings.Contains(s, "cannot marshal"):
@@ -402,6 +406,25 @@ func runEcho(c *runner.Ctx, ec *echoCfg) *echoResult {
 	var closeOnce sync.Once
 	closeSess := func() {
 		closeOnce.Do(func() {
+			// how many connections had been closed (by either side) before the session was: a call may
+			// only end with a connection-closed class error if some connection really was closed.
+			// The driver delivers that error before it closes its end, so wait for the close to show
+			// (only when such an outcome exists; bounded, and the bound running out is what gets judged).
+			for step := 0; ; step++ {
+				res.connsClosedBeforeClose = 0
+				for _, sc := range cl.AllConns() {
+					if sc.Driver.Closed() || sc.C.Closed() {
+						res.connsClosedBeforeClose++
+					}
+				}
+				mu.Lock()
+				need := res.outcomes["conn-closed"] > 0
+				mu.Unlock()
+				if res.connsClosedBeforeClose > 0 || !need || step > 3000 {
+					break
+				}
+				time.Sleep(10 * time.Millisecond)
+			}
 			c.Guard("Session.Close", sess.Close)
 			res.closeReturned = true
 		})
